@@ -379,6 +379,8 @@ class SchedLock(object):
     name of the driver function that holds the `with` statement.  Works the same with and without
     instrumentation, so counterexamples replay on the plain driver.  Re-entrant; never blocks."""
 
+    HELD = [0]          # number of SchedLocks currently held (by the single simulated running thread)
+
     def __init__(self, name, on_sync):
         self.name = name
         self.on_sync = on_sync
@@ -395,24 +397,22 @@ class SchedLock(object):
     def acquire(self, blocking=True, timeout=-1):
         if self.depth == 0:
             self.on_sync(self.name, 'acquire', self._caller())
+            SchedLock.HELD[0] += 1
         self.depth += 1
         return True
 
     def release(self):
         self.depth -= 1
         if self.depth == 0:
+            SchedLock.HELD[0] -= 1
             self.on_sync(self.name, 'release', self._caller())
 
     def __enter__(self):
-        if self.depth == 0:
-            self.on_sync(self.name, 'acquire', self._caller())
-        self.depth += 1
+        self.acquire()
         return self
 
     def __exit__(self, *a):
-        self.depth -= 1
-        if self.depth == 0:
-            self.on_sync(self.name, 'release', self._caller())
+        self.release()
         return False
 
     def locked(self):
@@ -426,16 +426,22 @@ class Preempter(object):
     """decides, at the sync points of the listed driver functions, whether the other thread's action runs
     now: one solver flag per eligible sync point, at most `budget` pre-emptions per path, never nested"""
 
-    def __init__(self, V, functions, action, budget=1, phases=('acquire', 'release')):
-        self.V, self.functions, self.action, self.budget, self.phases = V, set(functions), action, budget, phases
+    def __init__(self, V, functions, action, budget=1, phases=('acquire', 'release'), only_unlocked=False):
+        self.V, self.functions, self.action, self.budget, self.phases = V, (set(functions) if functions is not None else None), action, budget, phases
+        self.only_unlocked = only_unlocked
+        SchedLock.HELD[0] = 0
         self.count = 0
         self.used = 0
         self.active = False
         self.log = []
 
     def __call__(self, name, phase, function):
-        if self.active or self.used >= self.budget or function not in self.functions or phase not in self.phases:
+        if self.active or self.used >= self.budget or phase not in self.phases:
             return
+        if self.functions is not None and function not in self.functions:
+            return
+        if self.only_unlocked and SchedLock.HELD[0] > 0:
+            return              # the pre-empted thread still holds a lock: another thread could be blocked on it
         k = self.count
         self.count += 1
         if self.V.flag('preempt_%d_%s_%s_%s' % (k, function, name, phase)):
